@@ -37,6 +37,16 @@ theorem C09_model_applicable :
     Consts.callQueueLenInc = 1 ∧ Consts.callInvokeNumInc = 1 ∧ Consts.callWriteTimeoutOffValue = 0 ∧
     Consts.callReplyChanCap = 0 ∧ Consts.callQueueLenDecSameReceiver = 1 := by decide
 
+/-- **Lock discipline of the transport client (current tree).**  The model treats
+    `connection.close`, `connection.lost` and the non-dialling path of `connection.ReConnect` as atomic
+    actions (`connClose`, `lockAcq`) that never leave `connLock` held, and the dialling path as holding
+    it exactly from `lockAcq` to `dialOk` / `dialFail`.  That is an abstraction of the code only if every
+    way out of these three functions releases the lock (a `defer c.connLock.Unlock()` after the `Lock()`,
+    or an `Unlock()` before every `return` and before the end): re-extracted on every run. -/
+theorem C09_lock_discipline_current_tree :
+    Consts.callConnLockReleasedClose = 1 ∧ Consts.callConnLockReleasedReConnect = 1 ∧
+    Consts.callConnLockReleasedLost = 1 := by decide
+
 /-- **Effective deadline.** The caller's context deadline if it has one, otherwise now + the per-call
     timeout, otherwise now + the configured timeout. -/
 theorem C09_deadline_selection (cfg : Cfg) (now : Nat) (par : Params) :
